@@ -10,16 +10,19 @@ A witness `w` of `sqrt x` is a number with `0 ≤ w` and `w * w = x`.
   T_C08_theta_mid       the written point of arc_from_theta is p1 rotated about the axis through the centre by θ/2,
                         for every θ in (0, 2π) of either sign (closed form: pm + tan(θ/4)/2 · (dp × axis))
   T_C08_theta_onarc     … hence it satisfies `OnArcMid`
+  T_C08_valid_theta / T_C08_valid_origin   the quantity tested by ArcEdgeBase.is_valid is chord × rise for the written point
+  T_C08_arc_chord       over ℝ with (c, s) = (cos θ/2, sin θ/2): chord ≤ radius × |θ| (arc length ≥ chord for Angle arcs)
   T_C08_arc3_centre     the centre computed by arc_length_3point is equidistant from the 3 points, in their plane
   T_C08_arc3_side_mid   the interior/exterior test is right whenever the third point is the arc's middle
   T_C08_arc3_side_partial one direction of the (false) equivalence `0 ≤ test ↔ interior`: an "exterior" decision is always right
   T_C08_arc3_side_counterexample   … an "interior" decision is not (known finding, same as blockMesh)
   T_C08_chord           polyline length ≥ distance of the end points (every point list, every witness list)
-The `acos` step (arc length = radius × angle) and `R·θ ≥ chord` for arcs are validator-checked only.
+The `acos` step (arc length = radius × angle) is validator-checked only.
 -/
 import CBV.Lemmas.C08
 import Mathlib.Tactic.NormNum
 import Mathlib.Algebra.Order.Field.Rat
+import Mathlib.Analysis.SpecialFunctions.Trigonometric.Bounds
 
 namespace CBV.C08
 open Vec
@@ -258,6 +261,91 @@ example :
     ((5 : Rat) * 5 = nsq (sub p1 (thetaCentre p1 p2 a (-3 / 5) (4 / 5) 8 8))) ∧
     thetaMid p1 p2 a 4 (-3 / 5) (4 / 5) 8 8 5 = ⟨4, -8, 0⟩ := by
   norm_num [nsq, dot, sub, cross, thetaChord, thetaCentre, thetaMid, midPoint, unitVec, smul, add, sgn]
+
+/-! ### validity (collinearity test) of the written arcs -/
+
+/-- `cross(arm_1, arm_2)` of `ArcEdgeBase.is_valid` is `chord × (third point − chord middle)` -/
+theorem validCross_eq (p1 p2 M : Vec K) :
+    validCross p1 p2 M = cross (sub p2 p1) (sub M (midPoint p1 p2)) := by
+  apply Vec.ext' <;> simp only [validCross, cross, sub, midPoint] <;> ring
+
+/-- For the point written by `arc_from_theta` the quantity tested by `ArcEdgeBase.is_valid` is, exactly,
+    `|cross(arm_1, arm_2)|² = ((1 − c)/(2s))² · |chord|⁴`, i.e. `|cross| = chord² · |tan(θ/4)| / 2 = chord × rise`:
+    the arc is kept iff `chord × rise > TOL` — whatever the radius (flat arcs) and however close the ends (nearly full turns). -/
+theorem T_C08_valid_theta (p1 p2 a : Vec K) (θ c s wrm wc wR : K) (ha : nsq a = 1)
+    (hl : dot (sub p2 p1) a = 0) (hcs : c * c + s * s = 1)
+    (hθ : (0 < θ ∧ 0 < s) ∨ (θ < 0 ∧ s < 0))
+    (hrm0 : 0 < wrm) (hrm : wrm * wrm = nsq (cross (sub p2 p1) a))
+    (hc0 : 0 ≤ wc) (hc : wc * wc = nsq (thetaChord p1 p2 a))
+    (hR0 : 0 ≤ wR) (hR : wR * wR = nsq (sub p1 (thetaCentre p1 p2 a c s wrm wc))) :
+    nsq (validCross p1 p2 (thetaMid p1 p2 a θ c s wrm wc wR))
+      = ((1 - c) / (2 * s)) * ((1 - c) / (2 * s)) * (nsq (sub p2 p1) * nsq (sub p2 p1)) := by
+  obtain ⟨_, _, h3⟩ := T_C08_theta_mid p1 p2 a θ c s wrm wc wR ha hl hcs hθ hrm0 hrm hc0 hc hR0 hR
+  rw [validCross_eq, h3]
+  obtain ⟨r, hr⟩ : ∃ r, r = (1 - c) / (2 * s) := ⟨_, rfl⟩
+  rw [← hr]
+  have key : nsq (cross (sub p2 p1) (sub (add (midPoint p1 p2) (smul r (cross (sub p2 p1) a))) (midPoint p1 p2)))
+      = r * r * (nsq (sub p2 p1) * nsq (sub p2 p1) * nsq a
+          - nsq (sub p2 p1) * (dot (sub p2 p1) a * dot (sub p2 p1) a)) := by
+    simp only [nsq, dot, cross, sub, add, smul, midPoint]; ring
+  rw [key, ha, hl]; ring
+
+/-- For the point written by `arc_from_origin` (equidistant origin): `|cross(arm_1, arm_2)|² = (R − |pm − C|)² · |chord|²`,
+    i.e. `|cross| = chord × rise` again. -/
+theorem T_C08_valid_origin (p1 p2 C : Vec K) (wR ws : K)
+    (heq : nsq (sub p1 C) = nsq (sub p2 C))
+    (hs0 : 0 < ws) (hs : ws * ws = nsq (sub (midPoint p1 p2) C)) :
+    nsq (validCross p1 p2 (arcMid C p1 p2 wR ws)) = (wR - ws) * (wR - ws) * nsq (sub p2 p1) := by
+  obtain ⟨t, ht⟩ : ∃ t, wR / ws = t := ⟨_, rfl⟩
+  have hne : ws ≠ 0 := ne_of_gt hs0
+  have hx : ∀ v : K, wR * (v / ws) = t * v := by intro v; rw [← ht]; field_simp
+  have hwR : wR = t * ws := by rw [← ht]; field_simp
+  rw [validCross_eq]
+  have hperp : dot (sub p2 p1) (sub (midPoint p1 p2) C) = 0 := by
+    simp only [nsq, dot, sub, midPoint] at heq ⊢
+    linear_combination (-1 / 2 : K) * heq
+  have key : nsq (cross (sub p2 p1) (sub (arcMid C p1 p2 wR ws) (midPoint p1 p2)))
+      = (t - 1) * (t - 1) * (nsq (sub p2 p1) * nsq (sub (midPoint p1 p2) C)
+          - dot (sub p2 p1) (sub (midPoint p1 p2) C) * dot (sub p2 p1) (sub (midPoint p1 p2) C)) := by
+    simp only [arcMid, nsq, dot, cross, sub, add, smul, midPoint, unitVec, hx]; ring
+  rw [key, hperp, ← hs, hwR]; ring
+
+example : nsq (validCross (⟨25, 0, 0⟩ : Vec Rat) ⟨7, 24, 0⟩ (arcMid ⟨0, 0, 0⟩ ⟨25, 0, 0⟩ ⟨7, 24, 0⟩ 25 20))
+    = (25 - 20) * (25 - 20) * nsq (sub (⟨7, 24, 0⟩ : Vec Rat) ⟨25, 0, 0⟩) := by
+  norm_num [validCross, nsq, dot, sub, cross, midPoint, arcMid, add, smul, unitVec]
+
+/-! ### arc length ≥ chord (over ℝ) -/
+
+/-- radius × |sector angle| ≥ chord: the arc of `arc_from_theta` is at least as long as the distance of its end points
+    (over ℝ, `(c, s) = (cos θ/2, sin θ/2)`; `|sin x| ≤ |x|`). -/
+theorem T_C08_arc_chord (p1 p2 a : Vec ℝ) (θ wrm wc wR : ℝ) (ha : nsq a = 1)
+    (hl : dot (sub p2 p1) a = 0) (hs : Real.sin (θ / 2) ≠ 0)
+    (hrm0 : 0 < wrm) (hrm : wrm * wrm = nsq (cross (sub p2 p1) a))
+    (hc0 : 0 ≤ wc) (hc : wc * wc = nsq (thetaChord p1 p2 a))
+    (hR0 : 0 ≤ wR)
+    (hR : wR * wR = nsq (sub p1 (thetaCentre p1 p2 a (Real.cos (θ / 2)) (Real.sin (θ / 2)) wrm wc))) :
+    wc ≤ wR * |θ| := by
+  have hcs : Real.cos (θ / 2) * Real.cos (θ / 2) + Real.sin (θ / 2) * Real.sin (θ / 2) = 1 := by
+    have := Real.cos_sq_add_sin_sq (θ / 2); nlinarith
+  obtain ⟨hw, _⟩ := theta_wits p1 p2 a wrm wc ha hl hrm0 hrm hc0 hc
+  have h4 := theta_radius p1 p2 a _ _ wrm wc wR ha hl hcs hs hrm0 hrm hc0 hc hR
+  have hsin := Real.abs_sin_le_abs (x := θ / 2)
+  have hwc : wc = 2 * |Real.sin (θ / 2)| * wR := by
+    apply sq_wit_unique hc0 (by positivity)
+    rw [hw, ← h4]
+    have := abs_mul_abs_self (Real.sin (θ / 2))
+    nlinarith [this]
+  rw [hwc]
+  have h2 : |θ / 2| = |θ| / 2 := by rw [abs_div]; simp
+  rw [h2] at hsin
+  nlinarith [mul_nonneg hR0 (abs_nonneg (Real.sin (θ / 2)))]
+example :
+    let p1 : Vec ℝ := ⟨0, 0, 0⟩; let p2 : Vec ℝ := ⟨2, 0, 0⟩; let a : Vec ℝ := ⟨0, 0, 1⟩
+    nsq a = 1 ∧ dot (sub p2 p1) a = 0 ∧ Real.sin (Real.pi / 2) ≠ 0 ∧
+    ((2 : ℝ) * 2 = nsq (cross (sub p2 p1) a)) ∧ ((2 : ℝ) * 2 = nsq (thetaChord p1 p2 a)) ∧
+    ((1 : ℝ) * 1 = nsq (sub p1 (thetaCentre p1 p2 a (Real.cos (Real.pi / 2)) (Real.sin (Real.pi / 2)) 2 2))) := by
+  simp only [Real.cos_pi_div_two, Real.sin_pi_div_two]
+  norm_num [nsq, dot, sub, cross, thetaChord, thetaCentre, midPoint, unitVec, smul]
 
 /-! ### three-point arc -/
 
